@@ -177,7 +177,11 @@ func misspell(rt *rapid.T, lex []string) []string {
 }
 
 func genC10Case(rt *rapid.T) (valCase, bool) {
-	class := rapid.IntRange(0, 3).Draw(rt, "class")
+	class := rapid.IntRange(0, 4).Draw(rt, "class")
+	if class == 4 {
+		d := gen.OverlapDocument(rt, rapid.Bool().Draw(rt, "acyclic"))
+		return valCase{Schema: gen.OverlapSchema, Query: gen.JoinPlain(gen.QueryLexemes(d, gen.Canon)), Class: "overlap"}, true
+	}
 	if class == 3 {
 		// two independent schema faults: the load error must not depend on iteration order
 		st := gen.TypedSchema().Draw(rt, "schema")
